@@ -23,8 +23,18 @@ def run(ck):
         return
     byid = res["byid"]
     for c in res["broken"][:1]:
-        ck.violation({"property": "C01", "kind": "the script could not be executed deterministically on the implementation",
-                      "harness_error": c["err"], "case": c, "replay": "harness ingest --cases <file with this case>"}, no_input=True)
+        stuck = [x for x in res["broken"] if "watchdog" in (x.get("err") or "") or "no quiescence" in (x.get("err") or "")]
+        if stuck:
+            # the system under test stopped making progress on a script whose database answers every Do the script lets return:
+            # requests are never answered -- the liveness clause of C01, with the script as the failing input
+            w = ic.smallest(stuck)
+            ck.violation({"property": "C01", "kind": "the insert path stopped making progress (dead-lock / goroutine that never parks): requests of this script are never answered",
+                          "explanation": "every_push_is_answered_exactly_once: while the database keeps answering every request gets its answer; on the implementation the script below "
+                                         "leaves goroutines of the system under test running or blocked outside a channel operation for more than 30 s (harness: waitQuiet / watchdog)",
+                          "harness_error": w["err"], "case": w, "replay": "harness ingest --cases <file with this case>"})
+        else:
+            ck.violation({"property": "C01", "kind": "the script could not be executed deterministically on the implementation",
+                          "harness_error": c["err"], "case": c, "replay": "harness ingest --cases <file with this case>"}, no_input=True)
     ck.obligation("harness executed every generated script (quiescence reached, no panic)", not res["broken"],
                   "%d scripts; first: %s" % (len(res["broken"]), res["broken"][0]["err"] if res["broken"] else ""))
     ck.obligation("correspondence: model events = observed events on %d service scripts" % len(res["good"]), not res["mism"],
